@@ -75,7 +75,8 @@ def run_pair(ctx, harness, exe, lines, tag):
 
 
 def split_ev(case, impl, model):
-    """-> (constraint tokens, probe tokens, impl expr verdict, [(impl text, impl unify)], model expr verdict, spec bits, [model verdict])"""
+    """-> (constraint tokens, probe tokens, impl expr verdict, [(impl text, impl unify)], model expr verdict,
+    spec bits, [model verdict], all_safe)"""
     parts = case.split("|")
     cs = parts[0].split()[1:]
     probes = parts[1].split() if len(parts) > 1 else []
@@ -83,7 +84,7 @@ def split_ev(case, impl, model):
     mw = model.split()
     ipairs = [tuple(x.split(",")) for x in iw[1:]]
     bits = mw[1] if len(mw) > 1 and mw[1] != "-" else ""
-    return cs, probes, iw[0], ipairs, mw[0], bits, mw[2:]
+    return cs, probes, iw[0], ipairs, mw[0], bits, mw[3:], (mw[2] == "1" if len(mw) > 2 else True)
 
 
 def property_failures(cs, probes, ie, ipairs, bits):
@@ -103,15 +104,151 @@ def property_failures(cs, probes, ie, ipairs, bits):
     return fails
 
 
+
+# ---------------------------------------------------------------- vm_compute cross-check ----
+
+def coq_str(tok_hex):
+    bs = b"" if tok_hex == "-" else bytes.fromhex(tok_hex)
+    return "[" + "; ".join("%d%%N" % b for b in bs) + "]"
+
+
+def coq_atom(t):
+    if t == "n":
+        return "ANull"
+    if t[0] == "b":
+        return "(ABool %s)" % ("true" if t[1] == "1" else "false")
+    if t[0] == "i":
+        return "(AInt (%d)%%Z)" % int(t[1:])
+    if t[0] == "f":
+        c, e = t[2:].split("e")
+        return "(AFloat (mkdec %s %s%%N (%s)%%Z))" % ("true" if t[1] == "-" else "false", c, e)
+    return "(%s %s)" % ("AStr" if t[0] == "s" else "ABytes", coq_str(t[1:]))
+
+
+COQ_OP = {"lt": "OLt", "le": "OLe", "gt": "OGt", "ge": "OGe", "ne": "ONe", "ma": "OMatch", "nm": "ONMatch"}
+COQ_TYPE = {"null": "TNull", "bool": "TBool", "int": "TInt", "float": "TFloat", "number": "TNumber",
+            "string": "TString", "bytes": "TBytes"}
+
+
+def coq_constr(t):
+    if t[0] == "A":
+        return "(CElem (KAtom %s))" % coq_atom(t[1:])
+    if t[0] == "T":
+        return "(CElem (KType %s))" % COQ_TYPE[t[1:]]
+    if t[0] == "B":
+        op, a = t[1:].split(",", 1)
+        return "(CElem (KBound %s %s))" % (COQ_OP[op], coq_atom(a))
+    return "(CRange R%s%s)" % (t[1].upper(), t[2:])
+
+
+def coq_table(part):
+    ents = []
+    for w in part.split():
+        p, q, v = w.split(":")
+        ents.append("(%s, %s, %s)" % (coq_str(p), coq_str(q), "true" if v == "1" else "false"))
+    return "[" + "; ".join(ents) + "]"
+
+
+def atoms_in_order(cs, probes):
+    out = []
+    for t in cs:
+        if t[0] == "A":
+            out.append(t[1:])
+        elif t[0] == "B":
+            out.append(t[1:].split(",", 1)[1])
+    return out + list(probes)
+
+
+def vm_cross_check(ctx, sample):
+    """Evaluate the sampled cases with vm_compute inside Coq and compare with the extracted model's output."""
+    import re as _re
+    lines = ["From Verif Require Import Scalar.Spec Scalar.Model Extract.C03.",
+             "From Coq Require Import List ZArith NArith Bool.", "Import ListNotations.", "Open Scope Z_scope."]
+    expected = []
+    for c, m in sample:
+        parts = c.split("|")
+        w = parts[0].split()
+        if w[0] == "SB":
+            tbl = coq_table(parts[1]) if len(parts) > 1 else "[]"
+            lines.append("Eval vm_compute in [c03_sb_code %s %s%%N (mkbound %s %s) (mkbound %s %s)]." % (
+                tbl, w[1], COQ_OP[w[2]], coq_atom(w[3]), COQ_OP[w[4]], coq_atom(w[5])))
+            expected.append([{"X": 0, "Y": 1, "N": 2, "B": 3}[m]])
+        else:
+            cs = w[1:]
+            probes = parts[1].split() if len(parts) > 1 else []
+            tbl = coq_table(parts[2]) if len(parts) > 2 else "[]"
+            order = atoms_in_order(cs, probes)
+            mw = m.split()
+
+            def code(v):
+                if v == "B":
+                    return -2
+                if v == "I":
+                    return -3
+                t = v[1:]
+                return order.index(t) if t in order else -1
+            bits = mw[1] if mw[1] != "-" else ""
+            expected.append([code(mw[0]), int(mw[2])] + [code(v) for v in mw[3:]] + [int(b) for b in bits])
+            lines.append("Eval vm_compute in (c03_ev_codes %s [%s] [%s] [%s])." % (
+                tbl, "; ".join(coq_atom(a) for a in order), "; ".join(coq_constr(t) for t in cs),
+                "; ".join(coq_atom(a) for a in probes)))
+    vf = os.path.join(ctx.work, "vmcheck.v")
+    with open(vf, "w") as f:
+        f.write("\n".join(lines) + "\n")
+    # no global coq lock: only reads the .vo files that vlib.prove() of this run has just (re)built
+    p = vlib.run(["timeout", "900", "coqc", "-Q", os.path.join(vlib.COQ, "theories"), "Verif", "-o",
+                  os.path.join(ctx.work, "vmcheck.vo"), vf], cwd=ctx.work, check=False)
+    if p.returncode != 0:
+        raise vlib.CheckFailure("vm_compute cross-check file does not compile:\n" + p.stdout[-3000:])
+    got = []
+    for mm in _re.finditer(r"=\s*\[(.*?)\]\s*:\s*list Z", p.stdout, _re.S):
+        body = mm.group(1).strip()
+        got.append([int(x) for x in body.replace("\n", " ").split(";")] if body else [])
+    if len(got) != len(expected):
+        raise vlib.CheckFailure("vm_compute cross-check: %d results for %d cases" % (len(got), len(expected)))
+    bad = [(sample[i][0], expected[i], got[i]) for i in range(len(got)) if got[i] != expected[i]]
+    if bad:
+        raise vlib.CheckFailure("extracted OCaml model and vm_compute disagree (extraction/driver broken): %r" % (bad[:2],))
+    return len(got)
+
+
+def is_malformed(cs):
+    """kind-conflicting or invalid-operand conjunction (the malformed stream)"""
+    fams = set()
+    for t in cs:
+        if t in ("Blt,n", "Bge,b1"):
+            return True
+        if t[0] == "R":
+            fams.add("N")
+        elif t[0] == "T":
+            fams.add({"int": "N", "float": "N", "number": "N"}.get(t[1:], t[1:]))
+        else:
+            a = t[1:] if t[0] == "A" else t[1:].split(",", 1)[1]
+            if t[0] == "B" and t[1:3] == "ne" and a == "n":
+                continue
+            fams.add({"i": "N", "f": "N", "s": "string", "y": "bytes", "b": "bool", "n": "null"}[a[0]])
+    return len(fams) > 1
+
 def run(ctx):
+    import time
     quick = ctx.tier == "quick"
+    phase = {}
+    t0 = time.time()
+
+    def lap(name):
+        nonlocal t0
+        phase[name] = round(time.time() - t0, 1)
+        t0 = time.time()
     proof = vlib.prove("C03", extra_targets=["theories/Extract/C03.vo"])
+    lap("proof")
     if not quick:
         proof.update(vlib.coqchk("C03"))
         if proof["coqchk_rc"] != 0:
             raise vlib.CheckFailure("coqchk failed: " + proof["coqchk_tail"])
     exe = vlib.build_model("C03", "extract/C03.v", "ocaml/c03_driver.ml")
+    lap("extract_and_ocaml_build")
     harness, hsecs = vlib.build_harness("c03")
+    lap("go_build")
     args = [harness, "--seed", str(ctx.seed), "--out", ctx.work]
     corpus = os.path.join(vlib.VERIF, "corpus", "C03", "cases.txt")
     if ctx.replay:
@@ -121,12 +258,13 @@ def run(ctx):
             f.write(rp.get("case", "") + "\n")
         args += ["--replay-cases", cf]
     elif quick:
-        args += ["--corpus", corpus, "--sb-dense", "1", "--sb-random", "2500", "--singles", "1", "--pairs", "1",
-                 "--rand", "4000", "--maxlen", "3", "--big", "2500"]
+        args += ["--corpus", corpus, "--sb-dense", "1", "--sb-random", "1500", "--singles", "1", "--pairs", "1",
+                 "--rand", "2500", "--maxlen", "3", "--big", "1500", "--strs", "800"]
     else:
-        args += ["--corpus", corpus, "--sb-dense", "1", "--sb-random", "60000", "--singles", "1", "--pairs", "2",
-                 "--triples-mini", "1", "--rand", "60000", "--maxlen", "4", "--big", "40000"]
+        args += ["--corpus", corpus, "--sb-dense", "1", "--sb-random", "40000", "--singles", "1", "--pairs", "2",
+                 "--triples-mini", "1", "--rand", "40000", "--maxlen", "4", "--big", "25000", "--strs", "10000"]
     vlib.run(args, timeout=3000)
+    lap("implementation_run")
     cases = open(os.path.join(ctx.work, "cases.txt")).read().split("\n")[:-1]
     impl = open(os.path.join(ctx.work, "impl.txt")).read().split("\n")[:-1]
     stats = ""
@@ -135,9 +273,17 @@ def run(ctx):
         stats = open(sp).read().strip()
     p = vlib.run([exe], input="\n".join(cases) + "\n", timeout=3000, stderr=None)
     model = p.stdout.split("\n")[:-1]
+    lap("model_run")
     if not (len(cases) == len(impl) == len(model)):
         raise vlib.CheckFailure("line count mismatch cases=%d impl=%d model=%d" % (len(cases), len(impl), len(model)))
 
+    # guard the extraction / driver glue: a deterministic sub-sample is recomputed by vm_compute
+    step = max(1, len(cases) // 160)
+    sample = [(c, m) for n, (c, m) in enumerate(zip(cases, model)) if n % step == 0 and len(c) < 1500][:200]
+    vm_checked = vm_cross_check(ctx, sample) if not ctx.replay else 0
+    lap("vm_compute_cross_check")
+
+    malformed = 0
     evaluations = 0
     nontrivial = 0
     distinct = set()
@@ -169,8 +315,10 @@ def run(ctx):
                 mismatches += 1
                 sb_mismatch.append((c, i, m))
             continue
-        cs, probes, ie, ipairs, me, bits, mper = split_ev(c, i, m)
+        cs, probes, ie, ipairs, me, bits, mper, safe = split_ev(c, i, m)
         evaluations += 1 + 2 * len(probes)
+        if is_malformed(cs):
+            malformed += 1
         verdicts[ie[0]] = verdicts.get(ie[0], 0) + 1
         for pr in ipairs:
             for v in pr:
@@ -187,7 +335,11 @@ def run(ctx):
         fails = property_failures(cs, probes, ie, ipairs, bits)
         if agree:
             if fails:
-                # implementation == Impl model != Spec: the recognised class (all_safe fails, see Proofs.v)
+                # implementation == Impl model != Spec: the recognised class.  By C03_accumulate_exact_when /
+                # C03_bottom_only_if_unsat_when this is impossible when all_safe holds.
+                if safe:
+                    raise vlib.CheckFailure("model == implementation != spec on an all_safe case, contradicting the "
+                                            "proved theorems (extraction or driver broken): " + c[:400])
                 known += 1
                 ctx.known_finding(FINDING)
             continue
@@ -221,7 +373,7 @@ def run(ctx):
             for c, i, m in zip(c2, i2, m2):
                 if m.startswith("ERROR"):
                     continue
-                cs, probes, ie, ipairs, me, bits, mper = split_ev(c, i, m)
+                cs, probes, ie, ipairs, me, bits, mper, safe = split_ev(c, i, m)
                 agree = (ie == me) and all(pa == mv and ua == mv for (pa, ua), mv in zip(ipairs, mper))
                 f = property_failures(cs, probes, ie, ipairs, bits)
                 if f and not agree:
@@ -237,6 +389,7 @@ def run(ctx):
                 payload["what"] += "; end to end the property fails on the listed expression/atom"
             report(payload, not found)
 
+    lap("diff")
     if not samples and cases:
         samples.append({"case": cases[0][:300], "impl": impl[0][:300], "model": model[0][:300]})
     ctx.coverage.update({
@@ -250,6 +403,8 @@ def run(ctx):
         "evaluations": evaluations,
         "case_lines": len(cases),
         "distinct_nontrivial": nontrivial,
+        "explanation": "malformed stream = conjunctions mixing kind families or with an invalid operand (<null, >=true); "
+                       "spec_deviations_predicted_by_impl_model = cases where implementation == Impl model != Spec (finding C03-F1, all with all_safe = false)",
         "rule": "evaluations = SimplifyBounds calls + evaluated CUE values (expr, expr & atom, expr.Unify(atom)). "
                 "non-trivial, over distinct case lines: SB = SimplifyBounds returned an operand or bottom (not nil); "
                 "EV = conjunction of >= 2 constraints for which the probe atoms include both an accepted and a rejected atom",
@@ -259,7 +414,10 @@ def run(ctx):
         "samples": samples,
         "mismatches": mismatches,
         "spec_deviations_predicted_by_impl_model": known,
+        "malformed_stream_cases": malformed,
+        "vm_compute_cross_checked_cases": vm_checked,
         "harness_build_s": hsecs,
+        "phase_seconds": phase,
         "proof": {k: v for k, v in proof.items() if k.startswith("coqchk") or k in ("make_s",)},
     })
     ctx.assumptions.extend(TRUSTED)
@@ -267,7 +425,7 @@ def run(ctx):
 
 MANIFEST = {
     "category": "proof",
-    "text": "TBD",
-    "note": "TBD",
+    "text": "Coq theorems for ALL decimals, strings, bytes, kind masks and conjunct lists (no alphabet bound): numeric comparison is by exact rational value; int and float stay distinct; adt.SimplifyBounds (every cell of its table, the int readjustment, the fast path, the Inexact escape) returns an operand only when it is equivalent to the pair and bottom only when no atom satisfies both; by induction over insertValueConjunct steps the node's state admits exactly the atoms satisfying every inserted conjunct, hence: an atom the evaluator reports satisfies every conjunct and is the only candidate, an atom violating a conjunct never unifies (both unconditional), and - under the side condition all_safe (no fractional bound with an integral part of >= 35 digits) - an atom unifies iff it satisfies every conjunct with that atom as result, bottom only if unsatisfiable, verdict independent of conjunct order. The side condition is necessary: C03_impl_refuted is a vm_compute witness (finding C03-F1, reproduced on the pinned tree and reported as KNOWN-FINDING). The model is tied to /repo by exact agreement of adt.SimplifyBounds results and of bottom / incomplete / atom verdicts of cue.Context.CompileString (expr, expr & atom, expr.Unify(atom)) with the extracted model on exhaustive dense enumerations and random near-equal high-precision decimals and strings.",
+    "note": "Trusted: Coq kernel; hand-written model of simplify.go, the scalar part of insertValueConjunct, updateNodeType, validateValue, BoundValue.Kind/validate, BinOp comparisons, scheduleConjunct's value/evaluator order, predeclared ranges; cockroachdb/apd Add/Sub/Ceil/Floor/Modf/Int64/Sign at precision 34 is modelled and validated only by the correspondence; regexps are an oracle (per-case verdict table from Go regexp); extraction (ExtrOcamlBasic, cross-checked against vm_compute on a sub-sample every run), OCaml driver, Go harness. Exhaustive enumeration is <= 2 constraints (quick) / <= 3 over a mini alphabet (thorough), longer conjunctions are sampled. getValidators (printed form of non-concrete values), disjunctions, data priorities, apd overflow/subnormal are not modelled.",
     "technique": "Coq proof (soundness of the bound-simplification table over all decimals/strings, accumulator invariant by induction over the conjunct list) + extracted-model differential check against adt.SimplifyBounds and cue.Context.CompileString",
 }
